@@ -532,7 +532,7 @@ where
                     PoeticNumberLiteralIteratorItem::SuffixedWord(s, self.greedily_match_suffixes())
                 })
                 .unwrap_or_else(|| PoeticNumberLiteralIteratorItem::Word(s)),
-            PoeticNumberLiteralElem::WordSuffix(_) => unreachable!(),
+            PoeticNumberLiteralElem::WordSuffix(s) => PoeticNumberLiteralIteratorItem::Word(s),
         })
     }
 }
